@@ -118,7 +118,7 @@ theorem volume_eval (p d : Pt ℝ) (par : Option (Par ℝ)) :
   · have hc' := hc
     obtain ⟨hx, hy, hz⟩ := hc'
     by_cases hd : p.diameter = d.diameter
-    · simp [Segment.volume, mkSeg, hc, hx, hy, hz, hd, sphereVolume]
+    · simp [Segment.volume, mkSeg, hc, hx, hy, hz, hd, sphereVolume] <;> ring
     · have : ¬ p.diameter / 2 = d.diameter / 2 := by
         intro h; apply hd; linarith
       simp [Segment.volume, mkSeg, hc, hx, hy, hz, hd, this]
@@ -142,7 +142,7 @@ theorem surface_area_eval (p d : Pt ℝ) (par : Option (Par ℝ)) :
   · have hc' := hc
     obtain ⟨hx, hy, hz⟩ := hc'
     by_cases hd : p.diameter = d.diameter
-    · simp [Segment.surface_area, mkSeg, hc, hx, hy, hz, hd, sphereArea]
+    · simp [Segment.surface_area, mkSeg, hc, hx, hy, hz, hd, sphereArea] <;> ring
     · have : ¬ p.diameter / 2 = d.diameter / 2 := by
         intro h; apply hd; linarith
       simp [Segment.surface_area, mkSeg, hc, hx, hy, hz, hd, this]
